@@ -30,6 +30,42 @@ pub enum URecipe {
     /// stage 0: N = Z^2 u^4 + Z u^2, 1: w = Z u^2, 2: u^2, 3: x1 = (-B/A)(1 + 1/N); shape (Fq2 only)
     /// 0: (c,0)  1: (0,c)  2: (c,c)  3: (c,-c); `pick` chooses among the square roots
     Structured { stage: u8, shape: u8, c: FeR, pick: u8 },
+    /// G1: an input constructed from a prescribed OUTPUT ordinate: y (or -y) of the SSWU image is the structured
+    /// value (Montgomery-limb patterns, limb combinations, boundary values ...): the cubic x^3 + A'x + B' = y^2 is
+    /// solved over Fq and the SSWU map inverted at the root. (G2: the value is used as c0 of the input itself.)
+    FromY(FeR, u8),
+}
+
+/// u with sswu_g1(u) = (x, +-y) for the prescribed y, if the cubic has a root in the image of the map
+pub fn u_from_y_g1(y: &Fq, pick: u8) -> Option<Fq> {
+    static CACHE: OnceLock<std::sync::Mutex<std::collections::HashMap<(Z, u8), Option<Fq>>>> = OnceLock::new();
+    let cache = CACHE.get_or_init(|| std::sync::Mutex::new(std::collections::HashMap::new()));
+    if let Some(v) = cache.lock().unwrap().get(&(y.0.clone(), pick)) {
+        return v.clone();
+    }
+    let r = u_from_y_g1_uncached(y, pick);
+    cache.lock().unwrap().insert((y.0.clone(), pick), r.clone());
+    r
+}
+
+fn u_from_y_g1_uncached(y: &Fq, pick: u8) -> Option<Fq> {
+    let c = e1_iso();
+    let f = vec![c.b.sub(&y.sqr()), c.a.clone(), Fq::zero(), Fq::one()];
+    let mut roots = refmodel::fld::poly_roots_fq(&f);
+    if roots.is_empty() {
+        return None;
+    }
+    let k = pick as usize % roots.len();
+    roots.rotate_left(k);
+    for x in roots {
+        for yy in [y.clone(), y.neg()] {
+            let pre = h2c::sswu_preimages_of_point(&c, &h2c::z1(), &refmodel::curve::Pt::Aff(x.clone(), yy));
+            if let Some(u) = pre.get((pick as usize / 4) % std::cmp::max(pre.len(), 1)) {
+                return Some(u.clone());
+            }
+        }
+    }
+    None
 }
 
 /// invert the chain x1 -> N -> w -> u^2 -> u with square roots; None when a root does not exist
@@ -107,6 +143,7 @@ fn u_strategy() -> BoxedStrategy<URecipe> {
         2 => any::<bool>().prop_map(URecipe::Exceptional),
         3 => any::<u16>().prop_map(URecipe::StagePreimage),
         4 => (0u8..4, 0u8..4, fq_strategy(), 0u8..4).prop_map(|(stage, shape, c, pick)| URecipe::Structured { stage, shape, c, pick }),
+        1 => (fq_strategy(), any::<u8>()).prop_map(|(y, p)| URecipe::FromY(y, p)),
     ]
     .boxed()
 }
@@ -220,6 +257,7 @@ pub fn u_g1(u: &URecipe) -> Fq {
         }
         URecipe::StagePreimage(i) => pick(&stage_pool_g1().items, *i).1.clone(),
         URecipe::Structured { stage, c, pick, .. } => structured_u(&e1_iso(), &h2c::z1(), *stage, &c.fq(), *pick, &|c: &Fq| c.clone()),
+        URecipe::FromY(y, pick) => u_from_y_g1(&y.fq(), *pick).unwrap_or_else(|| y.fq()),
     }
 }
 
@@ -236,6 +274,7 @@ pub fn u_g2(u: &URecipe) -> Fq2 {
         }
         URecipe::StagePreimage(i) => pick(&stage_pool_g2().items, *i).1.clone(),
         URecipe::Structured { stage, shape, c, pick } => structured_u(&e2_iso(), &h2c::z2(), *stage, &c.fq(), *pick, &shape_fq2(*shape)),
+        URecipe::FromY(y, pick) => Fq2::new(y.fq(), Fq::from_u64(*pick as u64)),
     }
 }
 
